@@ -207,14 +207,15 @@ func (s *server) close() {
 		c.Close()
 	}
 	s.mu.Unlock()
+	s.wg.Wait() // a handler may still be sleeping in a reaction; it may open the UDP sockets afterwards
 	s.udpMu.Lock()
-	for _, u := range s.udp {
+	for i, u := range s.udp {
 		if u != nil {
 			u.Close()
+			s.udp[i] = nil
 		}
 	}
 	s.udpMu.Unlock()
-	s.wg.Wait()
 }
 
 // drain waits until every connection handler has finished (the client closed its connections).
